@@ -74,9 +74,19 @@ def find_embedding(a, b, fixed=frozenset(), onto=False, forbidden_images=frozens
                 del m[x]
         return False
 
-    if rec(0):
-        return dict(m)
-    return None
+    # one level of recursion per quad with a blank node: make room for it (a few hundred quads are legitimate input)
+    import sys
+
+    limit = sys.getrecursionlimit()
+    need = len(var_a) + 500
+    if need > limit - 200:
+        sys.setrecursionlimit(limit + need)
+    try:
+        if rec(0):
+            return dict(m)
+        return None
+    finally:
+        sys.setrecursionlimit(limit)
 
 
 def isomorphic(a, b, fixed=frozenset()):
